@@ -96,7 +96,7 @@ func main() {
 				panic(r)
 			}
 		}()
-		ck.Run(ctx)
+		checks.RunWithConcurrentUse(ck, ctx)
 	}()
 	code := ctx.Finish()
 	if rep != nil {
